@@ -4,6 +4,7 @@ import PetgraphModel.Oracle.Reach
 import PetgraphModel.Oracle.Dist
 import PetgraphModel.Oracle.C11Judge
 import PetgraphModel.Model.C11Paths
+import PetgraphModel.Model.C11Checks
 /-
 C11 driver.  Requests (after a `graph …` line), answers in abstract node ids:
 
@@ -13,8 +14,17 @@ C11 driver.  Requests (after a `graph …` line), answers in abstract node ids:
   fw <ty>         => ok u.v:d,…                                        | err
   fwp <ty>        => ok u.v:d:p,…                                      | err
 
-Per line: the spec-level judge (`Oracle/C11Judge.lean`, against the abstract graph) decides
-SPECFAIL / KNOWN; if it accepts, the answer is compared exactly with the mirror model on the view.
+Per line: first the run-time checks of the hypotheses of the model theorems (`Model/C11Checks.lean`;
+`Theorems/C11.lean`, section "run-time checks of the hypotheses", proves each Boolean sound): the
+`graph` line establishes `ViewArcs`, `WellFormed` and `|V| ≤ node_bound`; every request re-checks what
+it needs about its own arguments (source is a node; the width bounds for its cost type, with
+`M = maxOutLen v` and `Wm = maxAbsW v.g` computed from the case).  A failed check about the graph type
+or its encoding is `SPECFAIL side condition …`, one about the generated input only is
+`SPECFAIL generator left the proved range …` (the generator of harness/src/c11.rs keeps the costs in
+range; must never fire).  Then the spec-level judge (`Oracle/C11Judge.lean`, against the abstract graph)
+decides SPECFAIL (there is no KNOWN classification: D15 is repaired, `find_negative_cycle` answers are
+judged by `checkNegClosedWalk`); if it accepts, the answer is compared exactly with the mirror model on
+the view.
 -/
 namespace PetgraphModel.C11
 open PetgraphModel PetgraphModel.Oracle PetgraphModel.C11M PetgraphModel.C11J
@@ -146,6 +156,41 @@ def prevOf (items : List Item) (u w : Nat) : Option Nat :=
   | some it => it.pred
   | none => none
 
+/-! ### run-time checks of the hypotheses (`none` = all hold) -/
+
+/-- the range the costs must respect for the cost type `ty`: `f64` is used as an integer type, so
+beyond `max()`/`min()` of the type every value must stay within the exactly represented `±2^53` -/
+def rangeOf (ty : String) : Meas := if ty == "f64" then Meas.exactF64 else measOf ty
+
+def caseParams (v : View) : String :=
+  s!"|V|={v.g.nodes.length} node_bound={v.nb} M={maxOutLen v} Wm={maxAbsW v.g}"
+
+def okGraph (d : DState) : Option String :=
+  if d.ok then none else some "SPECFAIL side condition ViewArcs / WellFormed does not hold: the graph line of this case was rejected"
+
+def srcCheck (v : View) (s : Nat) : Option String :=
+  if srcB v s then none else some s!"SPECFAIL generator left the proved range: source {s} is not a node of the graph"
+
+/-- `bf`, `fnc`: `s ∈ nodes`; all values of the relaxation phase within `±2^53` (`f64` exact) -/
+def preFloat (d : DState) (s : Nat) : Option String :=
+  (okGraph d).or <| (srcCheck d.v s).or <|
+    if fitBfB d.v then none
+    else some s!"SPECFAIL generator left the proved range: bellman_ford on f64 is exact only while {bfLenC d.v}*Wm < 2^53 ({caseParams d.v})"
+
+/-- `spfa <ty>`: `s ∈ nodes`, `|V| ≤ node_bound`, `L·Wm < max()`, `min() ≤ −L·Wm` with
+`L = |V|·node_bound·M + |V|` -/
+def preSpfa (d : DState) (ty : String) (s : Nat) : Option String :=
+  (okGraph d).or <| (srcCheck d.v s).or <|
+    if !nbB d.v then some s!"SPECFAIL side condition node_count <= node_bound does not hold: {caseParams d.v}"
+    else if fitSpfaB (measOf ty) d.v && fitSpfaB (rangeOf ty) d.v then none
+    else some s!"SPECFAIL generator left the proved range: spfa::<{ty}> is proved for L*Wm < max() (f64: < 2^53), L = {spfaLenC d.v} ({caseParams d.v})"
+
+/-- `fw <ty>`, `fwp <ty>`: `2·|V|·Wm < max()`, `min() ≤ −2·|V|·Wm` -/
+def preFw (d : DState) (ty : String) : Option String :=
+  (okGraph d).or <|
+    if fitFloydB (measOf ty) d.v && fitFloydB (rangeOf ty) d.v then none
+    else some s!"SPECFAIL generator left the proved range: floyd_warshall::<{ty}> is proved for 2*|V|*Wm < max() (f64: < 2^53) ({caseParams d.v})"
+
 def verdict (spec : Option String) (model impl : String) : String :=
   match spec with
   | some why => s!"SPECFAIL {why}"
@@ -182,25 +227,39 @@ def step (d : DState) (req : List String) (impl : String) : DState × String :=
     match parseView req with
     | none => (d, "SPECFAIL unparsable graph line")
     | some v =>
-      if viewArcsOkB v && viewArcsB v && wfB v.g then ({ v := v, ok := true }, "ok")
-      else ({ v := v, ok := false }, "SPECFAIL edge iteration of this encoding does not describe the abstract graph")
+      if !wfB v.g then
+        ({ v := v, ok := false }, "SPECFAIL side condition WellFormed does not hold: duplicate node or edge endpoint outside the node list")
+      else if !(viewArcsOkB v && viewArcsB v) then
+        ({ v := v, ok := false }, "SPECFAIL side condition ViewArcs does not hold: edge iteration of this encoding does not describe the abstract graph")
+      else if !nbB v then
+        ({ v := v, ok := false }, s!"SPECFAIL side condition node_count <= node_bound does not hold: {caseParams v}")
+      else ({ v := v, ok := true }, "ok")
   | ["bf", s] =>
     let s := s.toNat?.getD 0
-    (d, verdict (judgeSS d.v.g s impl) (showBF d.v (bellmanFord d.v s)) impl)
+    match preFloat d s with
+    | some why => (d, why)
+    | none => (d, verdict (judgeSS d.v.g s impl) (showBF d.v (bellmanFord d.v s)) impl)
   | ["spfa", ty, s] =>
     let s := s.toNat?.getD 0
     let B := measOf ty
-    (d, verdict (judgeSS d.v.g s impl) (showSP B d.v (spfa B d.v s)) impl)
+    match preSpfa d ty s with
+    | some why => (d, why)
+    | none => (d, verdict (judgeSS d.v.g s impl) (showSP B d.v (spfa B d.v s)) impl)
   | ["fw", ty] =>
     let B := measOf ty
-    (d, verdict (judgeAP d.v.g false impl) (showFW B d.v false (floydWarshall B d.v)) impl)
+    match preFw d ty with
+    | some why => (d, why)
+    | none => (d, verdict (judgeAP d.v.g false impl) (showFW B d.v false (floydWarshall B d.v)) impl)
   | ["fwp", ty] =>
     let B := measOf ty
-    (d, verdict (judgeAP d.v.g true impl) (showFW B d.v true (floydWarshall B d.v)) impl)
+    match preFw d ty with
+    | some why => (d, why)
+    | none => (d, verdict (judgeAP d.v.g true impl) (showFW B d.v true (floydWarshall B d.v)) impl)
   | ["fnc", s] =>
     let s := s.toNat?.getD 0
-    match impl.splitOn "|" with
-    | [ans, bf] =>
+    match preFloat d s, impl.splitOn "|" with
+    | some why, _ => (d, why)
+    | none, [ans, bf] =>
       let parsed : Option (Option (List Nat)) :=
         if ans == "none" then some none
         else if ans.startsWith "some " then some (some (parseNats (ans.drop 5).toString))
@@ -212,8 +271,7 @@ def step (d : DState) (req : List String) (impl : String) : DState × String :=
         match judgeFnc d.v.g s a (bf == "err") with
         | .ok => (d, cmpExact model impl)
         | .fail why => (d, s!"SPECFAIL {why}")
-        | .d15 why => (d, s!"KNOWN D15 {why}")
-    | _ => (d, s!"SPECFAIL malformed answer {impl}")
+    | none, _ => (d, s!"SPECFAIL malformed answer {impl}")
   | _ => (d, s!"SPECFAIL bad request {req}")
 
 end PetgraphModel.C11
